@@ -78,14 +78,20 @@ def jsonable(x, depth=0):
     """Best-effort conversion of witness data to JSON-serialisable form."""
     if depth > 12:
         return repr(x)
-    if x is None or isinstance(x, (bool, int, float, str)):
+    if isinstance(x, str):
+        try:
+            x.encode("utf-8")
+            return x
+        except UnicodeEncodeError:  # lone surrogates cannot be written to a UTF-8 file: show them escaped
+            return x.encode("utf-8", "backslashreplace").decode("utf-8")
+    if x is None or isinstance(x, (bool, int, float)):
         return x
     if isinstance(x, BaseException):
         return {"exception": type(x).__name__, "message": str(x)[:300]}
     if isinstance(x, type):
         return x.__name__
     if isinstance(x, dict):
-        return {str(k): jsonable(v, depth + 1) for k, v in x.items()}
+        return {jsonable(str(k)): jsonable(v, depth + 1) for k, v in x.items()}
     if hasattr(x, "_asdict"):
         return {k: jsonable(v, depth + 1) for k, v in x._asdict().items()}
     if isinstance(x, (list, tuple, set, frozenset)):
